@@ -43,9 +43,12 @@ func loadZone(name string) *time.Location {
 	return l
 }
 
-type gen struct{ r *rand.Rand }
+type gen struct {
+	r        *rand.Rand
+	longLeft int // how many very long strings this generator may still produce (they are expensive on the Coq side)
+}
 
-func (g *gen) coin(p float64) bool { return g.r.Float64() < p }
+func (g *gen) coin(p float64) bool     { return g.r.Float64() < p }
 func (g *gen) pick(xs []string) string { return xs[g.r.Intn(len(xs))] }
 func (g *gen) str() string {
 	switch g.r.Intn(8) {
@@ -354,7 +357,26 @@ func (g *gen) mutateTrip(t *gtfs.Trip) (*gtfs.Trip, string) {
 	c.StopTimeUpdates = append([]gtfs.StopTimeUpdate{}, t.StopTimeUpdates...)
 	n := len(c.StopTimeUpdates)
 	for {
-		switch g.r.Intn(16) {
+		switch g.r.Intn(18) {
+		case 16: // compensating change of two numeric parts: the same instant as (date, after-midnight time) and (next day, time)
+			d := time.Duration(g.pick64([]int64{int64(24 * time.Hour), int64(time.Second), int64(time.Hour)}))
+			c.ID.HasStartDate, c.ID.HasStartTime = true, true
+			c.ID.StartDate = c.ID.StartDate.Add(d)
+			c.ID.StartTime -= d
+			return &c, "start date +d, start time -d"
+		case 17:
+			if n > 0 {
+				i := g.r.Intn(n)
+				u := c.StopTimeUpdates[i]
+				if u.Arrival != nil && u.Arrival.Time != nil && u.Arrival.Delay != nil {
+					e := *u.Arrival
+					e.Time = ptr(e.Time.Add(time.Second))
+					e.Delay = ptr(*e.Delay - time.Second)
+					u.Arrival = &e
+					c.StopTimeUpdates[i] = u
+					return &c, "arrival time +1s, delay -1s"
+				}
+			}
 		case 0:
 			c.ID.ID += "x"
 			return &c, "id"
